@@ -245,6 +245,10 @@ func forEachInjector(c *Ctx, progs []*corpus.Program, fn func(ic *InjCase)) (*in
 	}
 	if len(st.gateCompile) > 0 {
 		c.Coverage["gate_compile_failed"] = head(st.gateCompile, 10)
+		c.Inconclusive(fmt.Sprintf("%d corpus programs were dropped from this run because the generated package does not compile (C04 reports that): %s", len(st.gateCompile), st.gateCompile[0]))
+	}
+	if len(st.gateCLI) > 0 {
+		c.Inconclusive(fmt.Sprintf("%d corpus programs were dropped from this run because the generator rejected a valid declaration or emitted no function (C09 reports that): %s", len(st.gateCLI), st.gateCLI[0]))
 	}
 	if len(st.disagree) > 0 {
 		return st, fmt.Errorf("cross-solver disagreement (broken encoding): %s", st.disagree[0])
